@@ -528,7 +528,9 @@ func lifeCase(c *h.Case, lo int) {
 			c.Violation("no-response-to-reported-pair", "session %s: owner reported %d times, the visitor received no response in 25 s", sid, nDup)
 			break
 		}
-		time.Sleep(1500 * time.Millisecond) // the sender's response is delayed by 1 s
+		// the sender's response is delayed by 1 s: wait for the owner's first one, then a while for surplus ones
+		_, _ = O.p.WaitMsg(25*time.Second, func(x msg.Message) bool { _, ok := x.(*msg.NatHoleResp); return ok })
+		time.Sleep(1500 * time.Millisecond)
 		var got []*msg.NatHoleResp
 		for _, m := range O.p.Inbox() {
 			if r, ok := m.(*msg.NatHoleResp); ok {
